@@ -492,6 +492,7 @@ def _what_the_step_raised(trace):
 M.contract('exactly_lib.processing.processing_utils:AccessorFromParts._apply',
            params=dict(f=Iface(ProcessStepI), error_type=EnumOf(tcp.AccessErrorType),
                        args=FixedList(Any_, as_tuple=True), kwargs=Const({})),
+           inline=True, returns=Any_,
            raises={tcp.AccessorError: {'ensures': lambda exc, error_type, trace:
            (exc.error is error_type and exc.error_info is _what_the_step_raised(trace).error_info)
            if isinstance(_what_the_step_raised(trace), tcp.ProcessError) else exc is _what_the_step_raised(trace)}},
